@@ -108,3 +108,22 @@ Qed.
 Theorem line_ok_iff fl pol dlm fs : good_dlm pol dlm = true ->
   (line_ok pol dlm fs = true <-> smart_split pol dlm false (join_line_fl fl pol dlm fs) = (fs, false)).
 Proof. intros G. split; [apply line_roundtrip; exact G|apply line_ok_necessary; exact G]. Qed.
+
+(* the hypothesis of split_is_dialect is needed: with the delimiter space-semicolon the line QaQ_;b (Q the quote,
+   _ a space) is, in the dialect, the quoted field a followed by the delimiter and the field b; the code eats the
+   space after the closing quote, misses the delimiter and falls back to an unquoted field with a warning *)
+Lemma space_led_delimiter_not_dialect :
+  exists dlm line fs w, good_quoted_dlm dlm = false /\ Split dlm line fs w /\ split_quoted_str dlm false line <> (fs, w).
+Proof.
+  exists [SP; 59%N], [QT; 97%N; QT; SP; 59%N; 98%N], [[97%N]; [98%N]], false.
+  split; [reflexivity|]. split; [|vm_compute; discriminate].
+  change [QT; 97%N; QT; SP; 59%N; 98%N] with (([] ++ QT :: [97%N] ++ QT :: []) ++ [SP; 59%N] ++ [98%N]).
+  apply Split_q_more.
+  - apply QField_intro; [constructor|constructor|discriminate|]. apply QB_ch; [discriminate|apply QB_nil].
+  - change false with (has QT [98%N]). apply Split_u_last; [discriminate| |].
+    + intros [q [u [rest [Hq Hs]]]]. destruct Hq as [sp1 raw u sp2 H1 _ _ _].
+      assert (exists x, [98%N] = sp1 ++ QT :: x) as [x Hx].
+      { destruct Hs as [->| ->]; [eexists; reflexivity|]. rewrite qtext_app. eexists; reflexivity. }
+      destruct sp1 as [|c sp1]; [discriminate|]. inversion H1; subst. discriminate.
+    + intros [a [b E]]. apply (f_equal (@length _)) in E. rewrite !app_length in E. cbn [length] in E. lia.
+Qed.
